@@ -25,6 +25,10 @@ type c19Params struct {
 	DMaps []string
 	Keys  [][]string // per dmap
 	Depth int
+	// AfterLeave: the initial state is a replicated cluster that has lost a member after every key
+	// had been written: the survivors hold, for some partitions, the primary role and the only
+	// (backup) copy at the same time
+	AfterLeave bool
 }
 
 type c19Ent struct {
@@ -51,6 +55,30 @@ func c19New(p *c19Params) *c19Sys {
 		}
 		s.KV = append(s.KV, kv)
 		s.Ref = append(s.Ref, map[string]*c19Ent{})
+	}
+	if p.AfterLeave {
+		for d := range p.DMaps {
+			for k := range p.Keys[d] {
+				if fs := s.Apply(clustermc.Ev{K: "put", A: d, B: k}); len(fs) > 0 {
+					panic(fmt.Sprintf("c19: initial put: %v", fs))
+				}
+			}
+		}
+		// the member that goes is the primary owner of the first key: the survivor holds that key in
+		// its backup table only, and becomes the partition's primary owner
+		s.Cl.Leave(s.Cl.Owner(s.Cl.Live()[0], p.DMaps[0], p.Keys[0][0]))
+		if s.Cl.Stabilise() < 0 {
+			panic("c19: cluster does not stabilise after the leave")
+		}
+		// the handles were opened on members that may be gone: reopen them
+		s.KV = nil
+		for i, d := range p.DMaps {
+			kv, err := s.Cl.Entry(p.Entry, d, p.Keys[i][0])
+			if err != nil {
+				panic(err)
+			}
+			s.KV = append(s.KV, kv)
+		}
 	}
 	if p.Entry == "CC" {
 		cl, err := s.Cl.ClusterClient(s.Cl.Live()[0])
@@ -361,6 +389,9 @@ func c19Specs(tier string) []*clustermc.Spec {
 	// a single member (every operation is local, nothing re-registers a DMap name behind the
 	// handle's back) is explored one level deeper: put ; destroy ; put ; destroy
 	cfs = append(cfs, cf{1, 1, "EO", grid[0], keysFor["ab"]})
+	// a replicated cluster that has lost a member (n < 0 marks the configuration: 2 members before
+	// the leave)
+	cfs = append(cfs, cf{-2, 2, "EO", grid[0], keysFor["ab"]})
 	if !quick {
 		depth = 4
 		cfs = append(cfs, cf{3, 2, "CC", grid[0], keysFor["ab"]}, cf{3, 2, "EN", grid[1], keysFor["x"]})
@@ -371,12 +402,26 @@ func c19Specs(tier string) []*clustermc.Spec {
 		if c.n == 1 {
 			depth++
 		}
-		p := &c19Params{Name: fmt.Sprintf("dmaps=%q N=%d R=%d entry=%s", c.names, c.n, c.r, c.entry), Entry: c.entry, DMaps: c.names, Keys: c.keys, Depth: depth,
+		after := c.n < 0
+		if after {
+			c.n = -c.n
+		}
+		p := &c19Params{Name: fmt.Sprintf("dmaps=%q N=%d R=%d entry=%s", c.names, c.n, c.r, c.entry), Entry: c.entry, DMaps: c.names, Keys: c.keys, Depth: depth, AfterLeave: after,
 			Opts: simcluster.Opts{N: c.n, Replicas: c.r, WriteQ: 1, ReadQ: 1, Partitions: 3}}
+		if after {
+			p.Name += " after-a-leave"
+		}
 		var alpha []clustermc.Ev
 		for d := range c.names {
 			for k := range c.keys[d] {
-				for _, op := range []string{"put", "del", "incr", "lock", "expire"} {
+				ops := []string{"put", "del", "incr", "lock", "expire"}
+				if after {
+					// after the loss of a member the statements fix the meaning of plain Put / Get /
+					// Delete (C02) and of Destroy (this property); conditional and read-modify-write
+					// operations on a key whose only copy is a replica are not defined by any of them
+					ops = []string{"put", "del"}
+				}
+				for _, op := range ops {
 					alpha = append(alpha, clustermc.Ev{K: op, A: d, B: k})
 				}
 			}
